@@ -113,3 +113,15 @@ META['C12'] = {'engine': 'rqharness parse + rqmodel', 'design_ref': 'DESIGN.md s
             'and C12_fixpoint. parse -> write -> parse -> write of the real code on every generated input must preserve kind, names, rename flag, '
             'modes, hashes, sides, start lines and be a byte fixed point.',
     'note': 'Trusted: Lean kernel; RQ/Model/{Parse,Write}.lean are parser.rs/writer.rs (compared bytewise on every run). Known findings: hunkless-noop-vanishes, dev-null-named-file.'}
+
+_push('C14', 'Lean 4 proof (option model: presentation options filtered out leave configuration, outcome and world unchanged) + differential correspondence under random option combinations',
+      'Theorems C14_options / C14_push / C14_same over the token model of the command line. Every generated invocation of the real tool carries a '
+      'random combination of -q/-v/-vv/--mmap/--stats/--color/-A multiapply and must equal the option-free model and pushSpec (zero-length '
+      'source and patch files, failing series included).', ' Known residue: concurrent modification under --mmap.')
+_push('C09', 'Lean 4 proof (range composition and prefix lemmas on the abstract application spec, tied to the driver by the C05 refinement) + multi-invocation differential correspondence',
+      'Theorems C09_applyRange_append, C09_failed_is_prefix, applyRange_success_no_rej, C20_series. Every workspace is pushed in 1-4 consecutive '
+      'invocations with varying goals; after each one the real tree must equal pushSpec evaluated on the tree left by the previous one, and the model.')
+_push('C13', 'Lean 4 proof (reject text = header + failed hunks parses back to exactly those hunks, via the C12 round-trip lemmas) + differential correspondence on failing pushes',
+      'Theorems writeRej_eq, C13_rej_parses, C13_no_rej_on_success. Reject files of real failing pushes (any subset of files and hunks, all failure '
+      'reasons) must be byte-identical to pushSpec\'s: present exactly for failing file patches of the failing patch whose directory exists.',
+      ' Known limitation (documented): two failing file patches for one file overwrite each other\'s reject (dup-entry-rej-overwrite) - mirrored by the specification, see DESIGN.md.')
